@@ -172,6 +172,8 @@ def inline_single_use_helpers(tree):
                 if any(isinstance(x, (ast.FunctionDef, ast.AsyncFunctionDef, ast.ClassDef, ast.Yield, ast.YieldFrom, ast.Global, ast.Nonlocal, ast.Await))
                        for x in ast.walk(h) if x is not h):
                     continue
+                if _role_like(outer, h):
+                    continue
                 # all references to the helper's name inside the outer function
                 refs = [x for x in ast.walk(outer) if isinstance(x, ast.Name) and x.id == h.name]
                 calls = [x for x in ast.walk(outer) if isinstance(x, ast.Call) and isinstance(x.func, ast.Name) and x.func.id == h.name]
@@ -240,7 +242,7 @@ def inline_single_use_helpers(tree):
                     a = args[pn]
                     if isinstance(a, ast.Constant) and a.value is None:
                         known[pn] = True
-                    elif _cannot_be_none(a):
+                    elif _cannot_be_none(a) or (isinstance(a, ast.Name) and _name_cannot_be_none(_innermost_fn(outer, call), a.id)):
                         known[pn] = False
                     simple = isinstance(a, (ast.Name, ast.Constant)) or (isinstance(a, ast.Attribute) and isinstance(a.value, ast.Name))
                     if simple and pn not in hb:
@@ -362,6 +364,10 @@ def negate(test):
         return test.operand
     if isinstance(test, ast.Compare) and len(test.ops) == 1 and type(test.ops[0]) in _NEG:
         return ast.copy_location(ast.Compare(left=test.left, ops=[_NEG[type(test.ops[0])]()], comparators=test.comparators), test)
+    if isinstance(test, ast.BoolOp) and any(isinstance(v, ast.UnaryOp) and isinstance(v.op, ast.Not) for v in test.values):
+        # De Morgan, when it removes a `not`:  not (not a or b)  ==  a and not b   (as a truth value)
+        op = ast.And() if isinstance(test.op, ast.Or) else ast.Or()
+        return ast.copy_location(ast.BoolOp(op=op, values=[negate(v) for v in test.values]), test)
     return ast.copy_location(ast.UnaryOp(op=ast.Not(), operand=test), test)
 
 
@@ -695,7 +701,29 @@ def _inside(fn, node):
     return any(x is node for x in ast.walk(fn))
 
 
-def _bind(call, h, kind, multi_suffix, outer_bound):
+def _innermost_fn(scope, node):
+    inner = scope
+    for g in ast.walk(scope):
+        if isinstance(g, (ast.FunctionDef, ast.AsyncFunctionDef)) and g is not scope and any(x is node for x in ast.walk(g)):
+            if _size(g) < _size(inner):
+                inner = g
+    return inner
+
+
+def _name_cannot_be_none(scope, name):
+    """name is bound exactly once in scope (not a parameter), to an expression that cannot be None"""
+    if scope is None or name in _params(scope):
+        return False
+    defs = [x for x in _own_walk(scope) if isinstance(x, ast.Name) and x.id == name and isinstance(x.ctx, (ast.Store, ast.Del))]
+    if len(defs) != 1:
+        return False
+    for st in _own_walk(scope):
+        if isinstance(st, ast.Assign) and len(st.targets) == 1 and st.targets[0] is defs[0]:
+            return _cannot_be_none(st.value)
+    return False
+
+
+def _bind(call, h, kind, multi_suffix, outer_bound, scope=None):
     """parameter binding for one call: (mapping name->expr for direct substitution, rename map, pre-statements) or None"""
     ps = _params(h)
     decos = [ast.unparse(d) for d in h.decorator_list]
@@ -730,7 +758,7 @@ def _bind(call, h, kind, multi_suffix, outer_bound):
         a = args[pn]
         if isinstance(a, ast.Constant) and a.value is None:
             known[pn] = True
-        elif _cannot_be_none(a):
+        elif _cannot_be_none(a) or (isinstance(a, ast.Name) and _name_cannot_be_none(scope, a.id)):
             known[pn] = False
         simple = isinstance(a, (ast.Name, ast.Constant)) or (isinstance(a, ast.Attribute) and isinstance(a.value, ast.Name)) or \
             (isinstance(a, ast.Attribute) and isinstance(a.value, ast.Attribute) and isinstance(a.value.value, ast.Name))
@@ -781,7 +809,12 @@ def _inline_one(scope, call, h, kind, cls_name, gen, se, void_body, multi=None):
         return False
     blk, idx, st = loc
     outer_bound = _bound_names(scope) | set(_params(scope))
-    b = _bind(call, h, kind, _uid(), outer_bound)
+    inner = scope
+    for g in ast.walk(scope):
+        if isinstance(g, (ast.FunctionDef, ast.AsyncFunctionDef)) and g is not scope and any(x is call for x in ast.walk(g)):
+            if _size(g) < _size(inner):
+                inner = g
+    b = _bind(call, h, kind, _uid(), outer_bound, inner)
     if b is None:
         return False
     mapping, rename, pre, known = b
@@ -816,7 +849,9 @@ def _inline_one(scope, call, h, kind, cls_name, gen, se, void_body, multi=None):
         top_value = (isinstance(st, (ast.Assign, ast.AugAssign, ast.Return, ast.Expr, ast.AnnAssign)) and getattr(st, 'value', None) is call) \
             or (isinstance(st, ast.For) and st.iter is call) or (isinstance(st, (ast.If, ast.While)) and st.test is call and not pre_s and not pre and isinstance(st, ast.If))
         if not top_value and (pre_s or pre):
-            return False                # an expression position: only for helpers that are a single expression over simple arguments
+            # an expression position: the prefix is hoisted in front of the statement when the call is evaluated unconditionally
+            if not (isinstance(st, (ast.Assign, ast.AugAssign, ast.AnnAssign, ast.Return, ast.Expr)) and _unconditional_in(st, call)):
+                return False
         new_pre = [ast.copy_location(p_, st) for p_ in pre] + [ast.copy_location(x, st) if not hasattr(x, 'lineno') else x for x in conv(pre_s)]
         new_expr = sub.visit(copy.deepcopy(expr))
         if known:
@@ -903,13 +938,22 @@ def _fold_none_expr(e, known):
     return F().visit(e)
 
 
+# the nested helpers of the code base as the rules were written for it: never inlined under these names (under other names the
+# structural tests below decide).  Inlining exists to undo NEW extractions, not to dissolve the helpers the rules look up.
+NATIVE_HELPERS = {'batchDefeat', 'breakTie', 'calcQuota', 'countComplete', 'countElection', 'default', 'dist', 'distributeVotes',
+                  'findCertainLosers', 'hasQuota', 'hasSurplus', 'iterate', 'iterateStep', 'kw_meekHill', 'kw_meekNZ1A', 'kw_meekOpenSTV',
+                  'kw_warren', 'transfer'}
+
+
 def _role_like(container, h):
     """local helpers that the rules know by what they do (tie-break, ballot walk, quota, election predicate, completion test, iteration,
     sure-loser scan, vote distribution, keep/transfer split): never inlined"""
     ps = _params(h)
     src = ast.unparse(h)
     rets = [x for x in _own_walk(h) if isinstance(x, ast.Return) and x.value is not None]
-    if 'byTieOrder' in src:
+    if h.name in NATIVE_HELPERS:
+        return True
+    if 'byTieOrder' in src or 'tie' in h.name.lower():
         return True
     if any(isinstance(x, ast.Attribute) and x.attr == 'advance' for x in ast.walk(h)):
         return True
@@ -925,6 +969,12 @@ def _role_like(container, h):
     if any(isinstance(x, ast.For) and any(isinstance(y, ast.Break) for y in ast.walk(x)) for x in ast.walk(h)) and rets:
         return True
     if not ps and any(isinstance(x, ast.AugAssign) and isinstance(x.target, ast.Attribute) and x.target.attr == 'vote' for x in ast.walk(h)):
+        return True
+    # a pure selector / producer: computes its result with a loop and changes no candidate's status (sure-loser scans, low/high
+    # candidate searches).  The rules look such helpers up by what they return; they stay functions.
+    if rets and any(isinstance(x, (ast.For, ast.While)) for x in ast.walk(h)) and not any(
+            isinstance(x, ast.Call) and isinstance(x.func, ast.Attribute) and x.func.attr in ('elect', 'defeat', 'unpend', 'pend', 'unelect', 'logAction', 'newRound')
+            for x in ast.walk(h)):
         return True
     # zero-parameter boolean used as a loop / if test (countComplete)
     if not ps and rets:
@@ -1082,4 +1132,214 @@ def eliminate_copies(tree):
                 n += 1
                 changed = True
                 break
+    return n
+
+
+# ---------------------------------------------------------------------------
+# cross-module: small void helper methods inherited from a base class, inlined at `self.helper(...)` statement calls
+# ---------------------------------------------------------------------------
+
+def _unroll_kwargs_loops(body, kwname, items):
+    """`for k, v in KW.items(): BODY` with KW bound to the keyword arguments of one call: BODY repeated per keyword, k -> the name
+    (a string constant), v -> the argument expression.  Returns the new statement list, or None when KW is used in any other way."""
+    out = []
+    for st in body:
+        if isinstance(st, ast.For) and isinstance(st.iter, ast.Call) and isinstance(st.iter.func, ast.Attribute) and st.iter.func.attr == 'items' \
+                and isinstance(st.iter.func.value, ast.Name) and st.iter.func.value.id == kwname and not st.iter.args and not st.orelse \
+                and isinstance(st.target, ast.Tuple) and len(st.target.elts) == 2 and all(isinstance(e, ast.Name) for e in st.target.elts) \
+                and not any(isinstance(x, (ast.Break, ast.Continue)) for x in ast.walk(st)):
+            k, v = st.target.elts[0].id, st.target.elts[1].id
+            if any(isinstance(x, ast.Name) and x.id in (k, v) and isinstance(x.ctx, ast.Store) for b_ in st.body for x in ast.walk(b_)):
+                return None
+            for name, val in items:
+                sub = _Subst({k: ast.Constant(value=name), v: val}, {})
+                for b_ in st.body:
+                    out.append(sub.visit(copy.deepcopy(b_)))
+        else:
+            out.append(st)
+    if any(isinstance(x, ast.Name) and x.id == kwname for s_ in out for x in ast.walk(s_)):
+        return None
+    return out
+
+
+def inline_inherited_helpers(trees):
+    """trees: {module name: module ast}.  A method H of class B that
+         - is defined by exactly one class of the package and is not an anchor / dunder / decorated method,
+         - returns no value, has no nested defs, is at most 12 statements long,
+       is inlined at every expression-statement call `self.H(...)` made from a method of a class that inherits from B (by base-class
+       NAME, unique in the package), B itself included.  **kwargs of H are bound to the keyword arguments of the call and loops over
+       `kwargs.items()` are unrolled; a local of H bound once to an attribute path of self is substituted.  H itself stays.
+       (The per-module inliner handles private helpers of one class; this one undoes 'pull the repeated statements up into the base
+       class'.)  Returns the number of call sites inlined."""
+    classes = {}        # simple name -> [ClassDef]
+    for t in trees.values():
+        for c in ast.walk(t):
+            if isinstance(c, ast.ClassDef):
+                classes.setdefault(c.name, []).append(c)
+
+    def bases_of(c, seen=()):
+        out = []
+        for b in c.bases:
+            nm = b.id if isinstance(b, ast.Name) else (b.attr if isinstance(b, ast.Attribute) else None)
+            if nm and len(classes.get(nm, [])) == 1 and nm not in seen:
+                bc = classes[nm][0]
+                out.append(bc)
+                out += bases_of(bc, seen + (nm,))
+        return out
+
+    defs = {}           # method name -> [(ClassDef, FunctionDef)]
+    for cs in classes.values():
+        for c in cs:
+            for s_ in c.body:
+                if isinstance(s_, ast.FunctionDef):
+                    defs.setdefault(s_.name, []).append((c, s_))
+    total = 0
+    done = {}
+    for cs in classes.values():
+        for c in cs:
+            anc = bases_of(c)
+            if not anc:
+                continue
+            own = {s_.name for s_ in c.body if isinstance(s_, ast.FunctionDef)}
+            for M in [s_ for s_ in c.body if isinstance(s_, ast.FunctionDef)]:
+                if not M.args.args:
+                    continue
+                mself = M.args.args[0].arg
+                for call in [x for x in ast.walk(M) if isinstance(x, ast.Call)]:
+                    f = call.func
+                    if not (isinstance(f, ast.Attribute) and isinstance(f.value, ast.Name) and f.value.id == mself):
+                        continue
+                    nm = f.attr
+                    if nm in own or nm in ANCHOR_METHODS or (nm.startswith('__')) or len(defs.get(nm, [])) != 1:
+                        continue
+                    bc, h = defs[nm][0]
+                    if bc not in anc or h.decorator_list or h.args.vararg or not h.args.args:
+                        continue
+                    if _returns_value(h) or any(isinstance(x, (ast.FunctionDef, ast.ClassDef, ast.Lambda, ast.Yield, ast.YieldFrom, ast.Global, ast.Nonlocal))
+                                                 for x in ast.walk(h) if x is not h):
+                        continue
+                    body = [s_ for s_ in h.body if not (isinstance(s_, ast.Expr) and isinstance(s_.value, ast.Constant) and isinstance(s_.value.value, str))]
+                    if len(body) > 12:
+                        continue
+                    loc = _stmt_of(M, call)
+                    if loc is None:
+                        continue
+                    blk, idx, st = loc
+                    if not (isinstance(st, ast.Expr) and st.value is call):
+                        continue
+                    if any(isinstance(a, ast.Starred) for a in call.args) or any(k.arg is None for k in call.keywords):
+                        continue
+                    body = copy.deepcopy(body)
+                    hself = h.args.args[0].arg
+                    params = [a.arg for a in h.args.args[1:]] + [a.arg for a in h.args.kwonlyargs]
+                    kws = list(call.keywords)
+                    if h.args.kwarg:
+                        extra = [(k.arg, k.value) for k in kws if k.arg not in params]
+                        kws = [k for k in kws if k.arg in params]
+                        body = _unroll_kwargs_loops(body, h.args.kwarg.arg, extra)
+                        if body is None:
+                            continue
+                    elif any(k.arg not in params for k in kws):
+                        continue
+                    # bind the named parameters
+                    args = {}
+                    ok = True
+                    for i, a in enumerate(call.args):
+                        if i >= len(h.args.args) - 1:
+                            ok = False
+                            break
+                        args[h.args.args[1 + i].arg] = a
+                    for k in kws:
+                        if k.arg in args:
+                            ok = False
+                        args[k.arg] = k.value
+                    pos = h.args.args
+                    for j, d in enumerate(h.args.defaults):
+                        args.setdefault(pos[len(pos) - len(h.args.defaults) + j].arg, d)
+                    for a_, d in zip(h.args.kwonlyargs, h.args.kw_defaults):
+                        if d is not None:
+                            args.setdefault(a_.arg, d)
+                    if not ok or set(args) != set(params):
+                        continue
+                    void_body = _early_return_to_else(body)
+                    if void_body is None:
+                        continue
+                    hb = set()
+                    for s_ in void_body:
+                        for x in ast.walk(s_):
+                            if isinstance(x, ast.Name) and isinstance(x.ctx, (ast.Store, ast.Del)):
+                                hb.add(x.id)
+                    suffix = _uid()
+                    mapping, rename, pre = {}, {}, []
+                    if hself != mself:
+                        rename[hself] = mself
+                    for pn in params:
+                        a = args[pn]
+                        simple = isinstance(a, (ast.Name, ast.Constant)) or (isinstance(a, ast.Attribute) and isinstance(a.value, ast.Name))
+                        if simple and pn not in hb:
+                            mapping[pn] = a
+                        else:
+                            new = '%s__%s%s' % (pn, nm.lstrip('_'), suffix)
+                            rename[pn] = new
+                            pre.append(ast.copy_location(ast.Assign(targets=[ast.Name(id=new, ctx=ast.Store())], value=a), st))
+                    # locals bound once to an attribute path of self: substituted (the path is read where the local was)
+                    stores = {}
+                    for s_ in void_body:
+                        for x in ast.walk(s_):
+                            if isinstance(x, ast.Name) and isinstance(x.ctx, ast.Store):
+                                stores[x.id] = stores.get(x.id, 0) + 1
+                    kept = []
+                    for s_ in void_body:
+                        if isinstance(s_, ast.Assign) and len(s_.targets) == 1 and isinstance(s_.targets[0], ast.Name) and stores.get(s_.targets[0].id) == 1 \
+                                and s_.targets[0].id not in params and _self_path(s_.value, hself):
+                            mapping[s_.targets[0].id] = _Subst({}, rename).visit(copy.deepcopy(s_.value))
+                            continue
+                        kept.append(s_)
+                    for l in hb:
+                        if l not in rename and l not in mapping and l not in params:
+                            rename[l] = '%s__%s%s' % (l, nm.lstrip('_'), suffix)
+                    sub = _Subst(mapping, rename)
+                    new_body = pre + [sub.visit(s_) for s_ in kept]
+                    for x in new_body:
+                        for y in ast.walk(x):
+                            ast.copy_location(y, st)
+                    blk[idx:idx + 1] = new_body or [ast.copy_location(ast.Pass(), st)]
+                    total += 1
+                    done[nm] = done.get(nm, 0) + 1
+    # a helper every reference to which was inlined is dropped (its body would otherwise be judged out of context)
+    for nm, k in done.items():
+        left = sum(1 for t in trees.values() for x in ast.walk(t) if (isinstance(x, ast.Attribute) and x.attr == nm)
+                   or (isinstance(x, ast.Constant) and x.value == nm))
+        if left == 0:
+            bc, h = defs[nm][0]
+            bc.body.remove(h)
+            if not bc.body:
+                bc.body.append(ast.copy_location(ast.Pass(), h))
+    return total
+
+
+def _self_path(e, selfn):
+    while isinstance(e, ast.Attribute):
+        e = e.value
+    return isinstance(e, ast.Name) and e.id == selfn
+
+
+def void_early_returns(tree):
+    """in every function that returns no value: `if c: A; return` + REST  ==>  `if c: A else: REST` (the guard-clause spelling of a
+    conditional body; with the if-normaliser `if c: return` + REST becomes `if not c: REST`).  Functions whose returns sit in
+    loops / try / with are left alone."""
+    n = 0
+    for fn in [x for x in ast.walk(tree) if isinstance(x, (ast.FunctionDef, ast.AsyncFunctionDef))]:
+        if _returns_value(fn) or any(isinstance(x, (ast.Yield, ast.YieldFrom)) for x in _own_walk(fn)):
+            continue
+        rets = [x for x in _own_walk(fn) if isinstance(x, ast.Return)]
+        if not rets or (len(rets) == 1 and fn.body and fn.body[-1] is rets[0]):
+            continue
+        nb = _early_return_to_else(list(fn.body))
+        if nb is None:
+            continue
+        fn.body = nb or [ast.copy_location(ast.Pass(), fn)]
+        for x in fn.body:
+            ast.fix_missing_locations(x)
+        n += 1
     return n
